@@ -222,6 +222,115 @@ func (m *M) check(b, route string, a Args, pre *snapshot, r *world.Result) {
 		}
 	}
 
+	// ---------------- C07: remember cookie -------------------------------------------------
+	rememberOn := cfg.RememberMW && cfg.Has("remember")
+	issued := 0
+	for _, e := range r.CookEv {
+		if e.K == int(authboss.ClientStateEventPut) && e.Key == "rm" {
+			issued++
+		}
+	}
+	mwAuth := rememberOn && oldU == "" && rememberLicence(pre, newU) && newU != ""
+	if r.Wrote && r.Panic == "" {
+		asked := a.RM
+		if route == "oend" {
+			asked = strings.Contains(pre.sess["oauth2_params"], `"rm":"true"`)
+		}
+		if issued > 0 && !mwAuth && !asked {
+			m.violate("C07", "issue-unasked", fmt.Sprintf("a remember cookie was issued by a %s request that did not ask to be remembered", route), b)
+		}
+		if mwAuth {
+			if post.Sess["halfauth"] != "true" && !(route == "login" || route == "otplogin" || route == "oend" || route == "totpvalidate" || route == "smsvalidate" || route == "logout") {
+				m.violate("C07", "no-halfauth", "a remember-cookie login did not mark the session half-authenticated", b)
+			}
+			if post.Cook["rm"] == pre.cook["rm"] && route != "logout" {
+				m.violate("C07", "no-rotation", "a used remember cookie was not rotated", b)
+			}
+		}
+		if rememberOn && oldU == "" && pre.cook["rm"] != "" && !mwAuth && issued == 0 && post.Cook["rm"] == pre.cook["rm"] {
+			m.violate("C07", "bad-cookie-kept", "an unknown / malformed / used remember cookie was neither accepted nor deleted from the client", b)
+		}
+		if newU != "" && newU != oldU && !mwAuth && post.Sess["halfauth"] != "" &&
+			(route == "login" || route == "otplogin" || route == "oend" || route == "totpvalidate" || route == "smsvalidate") {
+			m.violate("C07", "halfauth-kept", "a full login left the half-auth mark in the session", b)
+		}
+	}
+
+	// ---------------- C10: logout ------------------------------------------------------------
+	if route == "logout" && cfg.Has("logout") && (a.Method == "" || a.Method == cfg.LogoutMethod) && r.Wrote && r.Panic == "" {
+		wl := map[string]bool{"flash_success": true}
+		for _, k := range cfg.Whitelist {
+			wl[k] = true
+		}
+		for k := range post.Sess {
+			if !wl[k] || k == "uid" || k == "halfauth" || k == "last_action" {
+				m.violate("C10", "left:"+k, fmt.Sprintf("after logout the session still holds %q", k), b)
+			}
+		}
+		for _, k := range cfg.Whitelist {
+			if v, ok := pre.sess[k]; ok && k != "uid" && k != "halfauth" && k != "last_action" && k != "flash_success" && post.Sess[k] != v {
+				m.violate("C10", "whitelist-lost", fmt.Sprintf("logout dropped or changed the whitelisted key %q", k), b)
+			}
+		}
+		if _, ok := post.Cook["rm"]; ok {
+			m.violate("C10", "cookie-kept", "after logout the remember cookie is still set", b)
+		}
+	}
+	if route == "logout" && cfg.Has("logout") && a.Method != "" && a.Method != cfg.LogoutMethod && oldU != "" && newU == "" && !cfg.ExpireMW {
+		m.violate("C10", "wrong-method", "logout reacted to an HTTP method other than the configured one", b)
+	}
+
+	// ---------------- C09: idle expiry ---------------------------------------------------------
+	if cfg.ExpireMW && oldU != "" && pre.sess["last_action"] != "" && (route == "prot" || route == "open") && r.Panic == "" {
+		if st, err := time.Parse(time.RFC3339, pre.sess["last_action"]); err == nil {
+			idle := pre.now.Sub(st)
+			wl := map[string]bool{}
+			for _, k := range cfg.Whitelist {
+				wl[k] = true
+			}
+			if idle >= cfg.ExpireAfter+time.Second {
+				if r.Probe != nil && r.Probe.Ran {
+					if r.Probe.PID != "" && !wl["uid"] {
+						m.violate("C09", "user-visible", "a request arriving after the idle deadline was served with a current user", b)
+					}
+					for k := range r.Probe.Seen {
+						if !wl[k] {
+							m.violate("C09", "state-visible:"+k, fmt.Sprintf("downstream handler could read non-whitelisted session value %q of an expired session", k), b)
+						}
+					}
+				}
+				if r.Wrote {
+					for k := range post.Sess {
+						if (!wl[k] || k == "uid" || k == "last_action") && k != "flash_error" && k != "flash_success" {
+							m.violate("C09", "jar-left:"+k, fmt.Sprintf("the response to an expired session left %q in the session", k), b)
+						}
+					}
+					for _, k := range cfg.Whitelist {
+						if v, ok := pre.sess[k]; ok && k != "uid" && k != "last_action" && post.Sess[k] != v {
+							m.violate("C09", "whitelist-lost", fmt.Sprintf("expiry dropped the whitelisted key %q", k), b)
+						}
+					}
+				}
+			} else if idle < cfg.ExpireAfter {
+				if route == "open" && r.Probe != nil && r.Probe.Ran && r.Probe.PID != oldU {
+					m.violate("C09", "early-expiry", "a request arriving before the idle deadline was not served as the session's user", b)
+				}
+			}
+		}
+	}
+
+	// ---------------- C14: OAuth2 state is single-use ----------------------------------------------
+	if route == "oend" && newU != "" && newU != oldU && a.State != "" {
+		key := "oauthstate|" + a.State
+		m.used[key]++
+		if m.used[key] > 1 {
+			m.violate("C14", "state-reuse", "an OAuth2 state value completed a second callback", b)
+		}
+		if post.Sess["oauth2_state"] == a.State {
+			m.violate("C14", "state-kept", "the OAuth2 state survived the callback that matched it", b)
+		}
+	}
+
 	// ---------------- C03: lock / confirm middlewares ----------------------------------
 	if (route == "lockmw" || route == "confirmmw" || route == "rootmw") && r.Probe != nil && r.Probe.Ran {
 		if u := pu(r.Probe.PID); u != nil {
